@@ -1,72 +1,5 @@
 import CoclsModel.StorageProofs
 namespace Cocls.Storage
-macro "fin_tac" : tactic => `(tactic| (refine ⟨?_, ?_, ?_, ?_, ?_⟩ <;> first | rfl | trivial | exact ⟨_, rfl⟩))
-
-theorem rsAlloc_fields (s : State) (n : Nat) :
-    (rsAlloc s n).frames = s.frames ∧ (rsAlloc s n).nextFrame = s.nextFrame ∧
-    (rsAlloc s n).born = s.born ∧ (rsAlloc s n).died = s.died := by
-  unfold rsAlloc
-  split <;> exact ⟨rfl, rfl, rfl, rfl⟩
-
-/-- every successful `alloc` ends by recording the frame: it is the last live frame, the extra object (if any) was
-constructed for it, and `inventory` points at that object — before any line of the coroutine body can run -/
-theorem alloc_result (s : State) (k sz id : Nat) (blk : Blk) (hres : (step s (Op.alloc k sz)).2 = Res.alloc id blk) :
-    id = s.nextFrame ∧ (step s (Op.alloc k sz)).1.inventory = some id ∧
-    (step s (Op.alloc k sz)).1.born = s.born ++ [id] ∧ (step s (Op.alloc k sz)).1.died = s.died ∧
-    ∃ p, (step s (Op.alloc k sz)).1.frames = s.frames ++ [⟨id, blk, sz, p⟩] := by
-  simp only [step, stepAlloc] at hres ⊢
-  cases hp : s.cfg.pol with
-  | default =>
-    simp only [hp] at hres ⊢
-    injection hres with h1 h2; subst h1; subst h2
-    fin_tac
-  | reusable =>
-    simp only [hp] at hres ⊢
-    injection hres with h1 h2; subst h1; subst h2
-    obtain ⟨r1, r2, r3, r4⟩ := rsAlloc_fields s (need s.cfg sz)
-    simp only [allocReusable, addFrame, r1, r2, r3, r4]
-    fin_tac
-  | mtsafe =>
-    simp only [hp] at hres ⊢
-    injection hres with h1 h2; subst h1; subst h2
-    obtain ⟨r1, r2, r3, r4⟩ := rsAlloc_fields s (need s.cfg sz)
-    simp only [allocMtsafe, addFrame]
-    by_cases hb : s.busy = true
-    · simp only [hb, if_true]; fin_tac
-    · simp only [hb, r1, r2, r3, r4]; fin_tac
-  | stack i =>
-    simp only [hp] at hres ⊢
-    cases hk : s.objs[k]? with
-    | none => simp only [hk] at hres; cases hres
-    | some asz =>
-      simp only [hk] at hres ⊢
-      injection hres with h1 h2; subst h1; subst h2
-      simp only [allocStack, addFrame]
-      by_cases hf : need s.cfg sz ≤ asz
-      · simp only [hf, if_true]; fin_tac
-      · simp only [hf, if_false]; fin_tac
-  | placement b =>
-    simp only [hp] at hres ⊢
-    injection hres with h1 h2; subst h1; subst h2
-    fin_tac
-  | buffer i =>
-    simp only [hp] at hres ⊢
-    injection hres with h1 h2; subst h1; subst h2
-    obtain ⟨f1, f2, f3, f4, _⟩ := bufResized_fields s i sz
-    simp only [allocBuffer, addFrame, f1, f2, f3, f4]
-    fin_tac
-  | static sp a =>
-    simp only [hp] at hres ⊢
-    split at hres
-    · cases hres
-    · rename_i hrej
-      simp only [hrej]
-      injection hres with h1 h2; subst h1; subst h2
-      simp only [allocStatic, addFrame]
-      by_cases hf : need s.cfg sz ≤ sp
-      · simp only [hf, if_true]; fin_tac
-      · simp only [hf, if_false]; fin_tac
-
 theorem stepFree_sstate (s : State) (id : Nat) :
     (stepFree s id).1.sstate = s.sstate ∧ (stepFree s id).1.objs = s.objs ∧ (stepFree s id).1.cfg = s.cfg := by
   unfold stepFree
